@@ -562,9 +562,10 @@ Section Npz.
   (* impl_COO: `COO(coords, data, shape)` written inside a Numba-compiled function.  The three native values are
      stored into the record (fill_value := zero of the data dtype), which is boxed on return.  The record's shape
      member is typed UniTuple(coordinate dtype, ndim) while the argument tuple is typed by its own elements (intp for
-     Python ints; the empty tuple has the distinct type Tuple(())): unless the two machine representations coincide
-     ([n x i64] for both int64 and uint64 coordinates; signedness is invisible at that level) the store is ill-typed
-     and compilation fails with a TypeError. *)
+     Python ints; the empty tuple has the distinct type Tuple(())).  Since /repo eb8a9b8 the store goes through an
+     explicit tuple-to-tuple cast (nb_construct_shape_cast) and the member is a tuple of intp, so it is always well
+     typed; a raw store is well typed only when the two machine representations coincide, otherwise compilation fails
+     with a TypeError. *)
   Definition nb_construct_typed (dt : Z * bool) (sh : shape) : bool :=
     if nb_construct_shape_cast then true            (* an explicit tuple-to-tuple cast: always well typed *)
     else nonempty sh
@@ -578,11 +579,6 @@ Section Npz.
               (s_shape, FInts (c_shape c)); (s_fill, FScalar zero)]
     else Raise TypeError.
 
-  Definition fits (dt : Z * bool) (z : Z) : bool :=
-    if snd dt then (- 2 ^ (fst dt - 1) <=? z) && (z <? 2 ^ (fst dt - 1))
-    else (0 <=? z) && (z <? 2 ^ fst dt).
-  (* clause NB_shape_fits_coords_dtype *)
-  Definition nb_shape_fits (dt : Z * bool) (c : coo V) : bool := forallb (fits dt) (c_shape c).
 End Npz.
 
 Arguments mkGCXS {V}.
